@@ -528,6 +528,34 @@ package badger
 //@   light
 //@   assert[version-stamped] before call SetEntry : arg1 == e && e.version == ts
 
+// SetEntry / Set / DeleteAt: the operation is handed, under the batch's lock, to handleEntry as
+// exactly the entry the caller described, and its verdict is the caller's.
+//@ func (*WriteBatch).SetEntry
+//@   props C27
+//@   light
+//@   assert[the-entry-under-the-lock] before call handleEntry : arg0 == wb && arg1 == e && held(wb.Mutex)
+//@   assert[verdict-returned] before return : result == ret(handleEntry#1)
+
+//@ func (*WriteBatch).Set
+//@   props C27
+//@   light
+//@   assert[key-and-value-as-given] before call SetEntry : arg0 == wb && arg1 != nil && bytes(arg1.Key) == bytes(k) && bytes(arg1.Value) == bytes(v) && arg1.meta == 0 && arg1.version == 0
+//@   assert[verdict-returned] before return : result == ret(SetEntry#1)
+
+//@ func (*WriteBatch).DeleteAt
+//@   props C27 C36
+//@   light
+//@   assert[delete-marker-at-the-version] before call SetEntry : arg0 == wb && arg1 != nil && bytes(arg1.Key) == bytes(k) && arg1.meta == bitDelete && arg1.version == ts
+//@   assert[verdict-returned] before return : result == ret(SetEntry#1)
+
+// callback: the first failed commit is remembered as the batch's error (later ones do not
+// replace it), and the throttle is always told.
+//@ func (*WriteBatch).callback
+//@   props C27
+//@   light
+//@   assert[first-error-kept] before call Store : arg1 == err && err != nil && called(Error#1) && ret(Error#1) == nil
+//@   assert[throttle-always-told] before return : called(Done#1)
+
 // ---- from commit to the write channel and back (C03, C28) ----
 
 // sendToWriteCh: refused while writes are blocked; the batch limits are checked on all entries
@@ -621,6 +649,27 @@ package badger
 //@   loop 1 invariant[count] rangeindex < len(db.imm) && len(tables) == (db.opt.ReadOnly ? 0 : 1) + rangeindex + 1
 //@   loop 1 invariant[active-stays-first] !db.opt.ReadOnly ==> len(tables) >= 1 && tables[0] == db.mt
 //@   assert[immutables-newest-first] before call IncrRef#2 : len(tables) >= 1 && arg0 == tables[len(tables)-1] && arg0 == db.imm[len(db.imm) - 2 - rangeindex]
+
+// getTotalSize: the level's byte size, read under the level's lock.
+//@ func (*levelHandler).getTotalSize
+//@   props C12
+//@   light
+//@   ensures[the-size] result == s.totalSize
+
+// levelTargets: the base level is where every L0 compaction writes; compactions only look BELOW
+// their destination for older versions (checkOverlap), so no level between L0 and the base level may
+// hold data (C12): otherwise a delete marker is dropped above the version it hides. The pinned tree
+// broke this (known finding 16, fixed: the base level stepped over a non-empty size-based base
+// level when the next level was empty).
+//@ func (*levelsController).levelTargets
+//@   props C12
+//@   light
+//@   loop 1 invariant[base-is-a-level] 0 <= t.baseLevel && t.baseLevel <= len(s.levels) && i < len(s.levels)
+//@   loop 2 invariant[base-kept] 0 <= t.baseLevel && t.baseLevel <= len(s.levels)
+//@   loop 3 invariant[base-is-a-level-going-down] 0 <= t.baseLevel && t.baseLevel <= len(s.levels) && i >= 1
+//@   assert[base-is-never-level-zero] before return : result.baseLevel >= 1
+//@   loop 4 invariant[nothing-above-so-far] i >= 1 && 0 <= t.baseLevel && t.baseLevel <= len(s.levels) && forall j int :: 1 <= j && j < i && j < t.baseLevel ==> s.levels[j].totalSize <= 0
+//@   assert[nothing-between-level-zero-and-base] before return : forall j int :: 1 <= j && j < result.baseLevel && j < len(s.levels) ==> s.levels[j].totalSize <= 0
 
 // Picking level-0 tables for a compaction to the base level: oldest first, and only a prefix of
 // the list: picking stops at the first table that does not overlap the range picked so far (a
